@@ -7,7 +7,8 @@ import numpy as np
 from . import c09
 
 THEOREMS = ["getBits_le", "cmp_in_range", "C10_cmp", "C10_cmp_above", "C10_cmp_col", "C10_index_sub",
-            "C10_index_elem", "C10_index_points", "C10_minmax"]
+            "C10_index_elem", "C10_index_points", "C10_minmax", "C10_delegation_ops", "C10_delegation_complete",
+            "C10_delegation_minmax", "C10_cmp_routing"]
 
 OPS = {
     "==": operator.eq, "!=": operator.ne, "<": operator.lt, "<=": operator.le, ">": operator.gt, ">=": operator.ge,
